@@ -67,6 +67,7 @@ type Case struct {
 	HeaderOp  string   `json:"header_op"` // what the handler does before failing: "" nothing | "set" grpc.SetHeader | "send" grpc.SendHeader
 	JSONSub   bool     `json:"json_sub"`  // gRPC-web: the message sub-codec is +json instead of +proto (status details stay a binary google.rpc.Status)
 	Gzip      bool     `json:"gzip"`      // gRPC family: the call negotiates per-message gzip (request and replies compressed)
+	Spoof     bool     `json:"spoof"`     // the handler also sets trailer metadata under the protocol's own names (grpc-status: 0, grpc-message: all good); such metadata is never transmitted (grpc-go drops it too), the returned status stands
 }
 
 var (
@@ -132,6 +133,9 @@ func newMux(c Case) *larking.Mux {
 		case "send":
 			grpc.SendHeader(ctx, metadata.Pairs("x-c5", "1"))
 		}
+		if c.Spoof {
+			grpc.SetTrailer(ctx, metadata.Pairs("grpc-status", "0", "grpc-message", "all good"))
+		}
 		if c.Code == 0 {
 			return dynamicpb.NewMessage(req.Descriptor()), nil // OK: a reply is required
 		}
@@ -147,6 +151,9 @@ func newMux(c Case) *larking.Mux {
 			ss.SetHeader(metadata.Pairs("x-c5", "1"))
 		case "send":
 			ss.SendHeader(metadata.Pairs("x-c5", "1"))
+		}
+		if c.Spoof {
+			ss.SetTrailer(metadata.Pairs("grpc-status", "0", "grpc-message", "all good"))
 		}
 		for i := 0; i < c.After; i++ {
 			if err := ss.SendMsg(reply(out, i)); err != nil {
@@ -542,6 +549,7 @@ func genCase(t *rapid.T, transports []string) Case {
 		c.Gzip = rapid.IntRange(0, 2).Draw(t, "gzip") == 0
 	}
 	c.HeaderOp = rapid.SampledFrom([]string{"", "", "set", "send"}).Draw(t, "headerOp")
+	c.Spoof = rapid.IntRange(0, 5).Draw(t, "spoof") == 0
 	if c.Transport == "httpjson" && c.After < 0 && rapid.IntRange(0, 3).Draw(t, "rawUpload") == 0 {
 		c.ReqType = rapid.SampledFrom([]string{"image/jpeg", "application/json; charset=utf-8", "text/plain", "application/x-unknown"}).Draw(t, "reqType")
 		c.Accept = rapid.SampledFrom([]string{"", "", "image/*", "application/json", "*/*", "application/protobuf"}).Draw(t, "acceptErr")
@@ -588,6 +596,9 @@ func record(c Case) {
 	if c.JSONSub {
 		cl = append(cl, "json-sub-codec")
 	}
+	if c.Spoof {
+		cl = append(cl, "handler-sets-reserved-trailer-names")
+	}
 	if c.HeaderOp != "" {
 		cl = append(cl, "handler-header-op="+c.HeaderOp)
 	}
@@ -595,7 +606,7 @@ func record(c Case) {
 		cl = append(cl, "raw-upload-request")
 	}
 	if needsEsc || len(c.Details) > 0 || c.Code > 16 || c.After > 0 {
-		key = fmt.Sprintf("%s|%d|%q|%v|%d|%v|%v|%s|%s|%s", c.Transport, c.Code, c.Msg, c.Details, c.After, c.Gzip, c.JSONSub, c.HeaderOp, c.ReqType, c.Accept)
+		key = fmt.Sprintf("%s|%d|%q|%v|%d|%v|%v|%s|%s|%s", c.Transport, c.Code, c.Msg, c.Details, c.After, c.Gzip, c.JSONSub, c.HeaderOp+fmt.Sprint(c.Spoof), c.ReqType, c.Accept)
 	}
 	evid.Eval(key, cl...)
 }
